@@ -505,7 +505,7 @@ def run_case(case, repo, rng_mod):
           "hasvals": hasvals, "vals": list(vals),
           "hasdflt": case["dflt"] is not None,
           "dflt": case["dflt"] if case["dflt"] is not None else "",
-          "ctor": ctor, "tv": [], "tb": [], "items": []}
+          "ctor": ctor, "tv": [], "tb": [], "items": [], "items2": []}
     info = {"exc": exc_text, "nprobes": 0}
     if vm is None:
         return ev, info
@@ -555,17 +555,20 @@ def observe(vm, ev, info, tname, ents, nvals, qs, case, rng, virt):
             rec["x"] = type(exc).__name__
         ev["tb"].append(rec)
 
-    # items()
-    try:
-        for it in vm.items():
-            b, s = it
-            rec = {"s": s if isinstance(s, str) else "UNCLASSIFIED:%r" % (s,),
-                   "k": "E", "lo": 0, "hi": 0}
-            rec.update(_proj_bin(b, virt))
-            ev["items"].append(rec)
-    except Exception as exc:  # noqa
-        ev["items"].append({"s": "UNCLASSIFIED:items raised %s" %
-                            type(exc).__name__, "k": "E", "lo": 0, "hi": 0})
+    # items(), twice: reading the object does not change it
+    for field in ("items", "items2"):
+        try:
+            for it in vm.items():
+                b, s = it
+                rec = {"s": s if isinstance(s, str)
+                       else "UNCLASSIFIED:%r" % (s,),
+                       "k": "E", "lo": 0, "hi": 0}
+                rec.update(_proj_bin(b, virt))
+                ev[field].append(rec)
+        except Exception as exc:  # noqa
+            ev[field].append({"s": "UNCLASSIFIED:items raised %s" %
+                              type(exc).__name__, "k": "E", "lo": 0,
+                              "hi": 0})
 
 
 # ---------------------------------------------------------------------------
@@ -719,7 +722,8 @@ def run_hist_case(hc):
               for k, lo, hi, lopen, hopen, nt in el["ents"]]
              for el in hc["els"]]
     blank = {"op": "", "el": 0, "decl": [], "hasdflt": False, "dflt": "",
-             "ctor": "", "tv": [], "tb": [], "items": [], "after": [],
+             "ctor": "", "tv": [], "tb": [], "items": [], "items2": [],
+             "after": [],
              "judgeobj": True}
     decl = []
     for el, virt, ents in zip(hc["els"], virts, entss):
@@ -741,7 +745,7 @@ def run_hist_case(hc):
         ev = dict(blank, op="Create", el=a["el"],
                   hasdflt=a["dflt"] is not None,
                   dflt=a["dflt"] if a["dflt"] is not None else "",
-                  ctor="ok", tv=[], tb=[], items=[])
+                  ctor="ok", tv=[], tb=[], items=[], items2=[])
         info = {"exc": "", "nprobes": 0}
         vm = None
         try:
